@@ -1212,4 +1212,381 @@ theorem step_sentinel {st st' : St} {me rest} (hI : Inv st)
         · rw [h] at hl ⊢; simp; exact hl
         · simp [updT_ne _ _ h]; exact hl
 
+def preBatch (ks : List Key) (f : Key → Option Nat) : List Ev := ks.map fun key => Ev.pre key (f key)
+
+theorem preBatch_no_down (ks f) : ∀ e ∈ preBatch ks f, ∀ p, e ≠ .down p := by
+  intro e he p; simp [preBatch] at he; obtain ⟨k, _, rfl⟩ := he; simp
+
+theorem touched_preBatch {m key ks f} : touched m key (preBatch ks f) ↔ m = false ∧ key ∈ ks := by
+  constructor
+  · intro ⟨e, he, v, hv⟩
+    simp [preBatch] at he; obtain ⟨k, hk, rfl⟩ := he
+    cases m <;> simp [proj] at hv
+    exact ⟨rfl, hv.1 ▸ hk⟩
+  · intro ⟨hm, hk⟩
+    subst hm
+    exact ⟨Ev.pre key (f key), by simp [preBatch]; exact ⟨key, hk, rfl, rfl⟩, f key, rfl⟩
+
+theorem preBatch_val {m key ks f} : ∀ e ∈ preBatch ks f, ∀ w, proj m e = some (key, w) → w = f key := by
+  intro e he w hw
+  simp [preBatch] at he; obtain ⟨k, _, rfl⟩ := he
+  cases m <;> simp [proj] at hw
+  obtain ⟨rfl, rfl⟩ := hw; rfl
+
+theorem mem_shardKeys {st : St} {k key} :
+    key ∈ shardKeys st k ↔ key ∈ st.keys ∧ key.shard = k ∧ (st.rib key).isSome = true := by
+  simp [shardKeys]
+
+theorem snapEvents_eq (st : St) (k) : snapEvents st k =
+    preBatch (shardKeys st k) (preOf st) ++
+    postBatch ((shardKeys st k).filter fun key => (postOf st key).isSome) (postOf st) := rfl
+
+theorem touched_snap {st : St} {k m key} (h : touched m key (snapEvents st k)) : key.shard = k := by
+  rw [snapEvents_eq, touched_append] at h
+  rcases h with h | h
+  · exact (mem_shardKeys.mp (touched_preBatch.mp h).2).2.1
+  · have := (touched_postBatch.mp h).2
+    simp at this
+    exact (mem_shardKeys.mp this.1).2.1
+
+theorem snap_no_down (st : St) (k) : ∀ e ∈ snapEvents st k, ∀ p, e ≠ .down p := by
+  intro e he p
+  rw [snapEvents_eq, List.mem_append] at he
+  rcases he with he | he
+  · exact preBatch_no_down _ _ e he p
+  · exact postBatch_no_down _ _ e he p
+
+/-- after the snapshot of its shard, the subscriber holds what the table holds for every key the
+    table has; keys the table does not have are left as they were -/
+theorem snap_fold {st : St} (hI : Inv st) {k m key} (hk : key.shard = k) (acc : Option Nat) :
+    (snapEvents st k).foldl (stepView m key) acc =
+      match ribV m st key with
+      | some v => some v
+      | none => acc := by
+  rw [snapEvents_eq, List.foldl_append]
+  cases m with
+  | false =>
+    -- the post batch is irrelevant for the pre-policy map
+    have hB : ∀ acc', (postBatch ((shardKeys st k).filter fun key => (postOf st key).isSome) (postOf st)).foldl
+        (stepView false key) acc' = acc' := fun acc' =>
+      foldl_untouched false key _ _ (fun h => by simpa using (touched_postBatch.mp h).1)
+        (fun e he p hp => absurd hp (postBatch_no_down _ _ e he p))
+    rw [hB]
+    cases hr : st.rib key with
+    | none =>
+      have : ¬ touched false key (preBatch (shardKeys st k) (preOf st)) := fun h => by
+        have := (mem_shardKeys.mp (touched_preBatch.mp h).2).2.2; simp [hr] at this
+      rw [foldl_untouched false key _ _ this (fun e he p hp => absurd hp (preBatch_no_down _ _ e he p))]
+      simp [ribV, preOf, hr]
+    | some e =>
+      have hmem : key ∈ shardKeys st k := mem_shardKeys.mpr ⟨(hI.sup key e hr).1, hk, by simp [hr]⟩
+      rw [foldl_batch_hit false key (preOf st key) _ _ (preBatch_no_down _ _) preBatch_val
+        (touched_preBatch.mpr ⟨rfl, hmem⟩)]
+      simp [ribV, preOf, hr]
+  | true =>
+    have hA : (preBatch (shardKeys st k) (preOf st)).foldl (stepView true key) acc = acc :=
+      foldl_untouched true key _ _ (fun h => by simpa using (touched_preBatch.mp h).1)
+        (fun e he p hp => absurd hp (preBatch_no_down _ _ e he p))
+    rw [hA]
+    cases hr : postOf st key with
+    | none =>
+      have : ¬ touched true key (postBatch ((shardKeys st k).filter fun key => (postOf st key).isSome) (postOf st)) :=
+        fun h => by
+          have := (touched_postBatch.mp h).2; simp [hr] at this
+      rw [foldl_untouched true key _ _ this (fun e he p hp => absurd hp (postBatch_no_down _ _ e he p))]
+      simp [ribV, hr]
+    | some b =>
+      have hsome : (st.rib key).isSome = true := by
+        cases h : st.rib key with
+        | none => simp [postOf, h] at hr
+        | some e => rfl
+      obtain ⟨e, he⟩ := Option.isSome_iff_exists.mp hsome
+      have hmem : key ∈ (shardKeys st k).filter fun key => (postOf st key).isSome := by
+        simp [hr]; exact mem_shardKeys.mpr ⟨(hI.sup key e he).1, hk, hsome⟩
+      rw [foldl_batch_hit true key (postOf st key) _ _ (postBatch_no_down _ _) postBatch_val
+        (touched_postBatch.mpr ⟨rfl, hmem⟩)]
+      simp [ribV, hr]
+
+theorem step_snap {st st' : St} {me k rest} (hI : Inv st)
+    (hp : (st.threads me).pgm = .snap k :: rest) (hs : step me st = some st') : Inv st' := by
+  have hme := me_lt hI hp
+  have hw := hI.wf me
+  unfold TWF at hw; rw [hp] at hw
+  cases hsn : (st.threads me).snapping with
+  | none => simp [wfp, hsn] at hw
+  | some sl =>
+    obtain ⟨s0, l0⟩ := sl
+    simp only [wfp, hsn, Option.map_some, Bool.and_eq_true, decide_eq_true_eq, Bool.not_eq_true',
+      Option.isNone_iff_eq_none] at hw
+    obtain ⟨⟨⟨hheld, hfresh⟩, hdrop⟩, hrest⟩ := hw
+    simp only [step, hp, hsn] at hs
+    injection hs with hs; subst hs
+    have hs0 := hI.idsN me s0 l0 hsn
+    have hq : ∀ s, s ≠ s0 → send st.queues [s0] (snapEvents st k) s = st.queues s := by
+      intro s h; exact send_out (by simpa using h)
+    have hq0 : send st.queues [s0] (snapEvents st k) s0 = st.queues s0 ++ snapEvents st k := send_in (by simp)
+    constructor <;> dsimp only
+    · intro i hi
+      have : i ≠ me := by omega
+      simp only [updT_ne _ _ this]; exact hI.idle i hi
+    · intro i
+      by_cases h : i = me
+      · subst h; unfold TWF; simpa [hheld, hfresh, hdrop] using hrest
+      · simpa [updT_ne _ _ h] using hI.wf i
+    · intro i j k' hi hj
+      have hi' : (st.threads i).held = some k' := by
+        by_cases h : i = me
+        · subst h; simpa using hi
+        · simpa [updT_ne _ _ h] using hi
+      have hj' : (st.threads j).held = some k' := by
+        by_cases h : j = me
+        · subst h; simpa using hj
+        · simpa [updT_ne _ _ h] using hj
+      exact hI.excl i j k' hi' hj'
+    · intro i k' hi
+      by_cases h : i = me
+      · subst h; simp at hi; exact hI.heldlt i k' hi
+      · simp [updT_ne _ _ h] at hi; exact hI.heldlt i k' hi
+    · exact hI.sup
+    · exact hI.idsS
+    · intro i s hs
+      by_cases h : i = me
+      · subst h; simp at hs; exact hI.idsT i s hs
+      · simp [updT_ne _ _ h] at hs; exact hI.idsT i s hs
+    · intro i s l hs
+      by_cases h : i = me
+      · subst h; simp at hs; rw [← hs.1]; exact hs0
+      · simp [updT_ne _ _ h] at hs; exact hI.idsN i s l hs
+    · intro s hs
+      have hne : s ≠ s0 := by omega
+      rw [hq s hne]; simp only [hne, if_false]; exact hI.idsQ s hs
+    · intro i s l hs k' hk'
+      by_cases h : i = me
+      · subst h; simp at hs
+        obtain ⟨rfl, rfl⟩ := hs
+        simp at hk' ⊢
+        rcases hk' with hk' | hk'
+        · exact Or.inl hk'
+        · exact Or.inr (hI.snapl i s0 l0 hsn k' hk')
+      · simp [updT_ne _ _ h] at hs
+        have := hI.snapl i s l hs k' hk'
+        by_cases hs' : s = s0
+        · simp [hs']; exact Or.inr (hs' ▸ this)
+        · simp [hs']; exact this
+    · intro s hs k' hk'
+      have := hI.comp s hs k' hk'
+      by_cases hs' : s = s0
+      · simp [hs']; exact Or.inr (hs' ▸ this)
+      · simp [hs']; exact this
+    · intro i r hr hwant
+      by_cases h : i = me
+      · subst h; simp at hr ⊢
+        rcases hI.recs i r hr hwant with hc | ⟨l, hl⟩
+        · exact Or.inl hc
+        · rw [hsn] at hl; simp at hl; exact Or.inr hl.1
+      · simp [updT_ne _ _ h] at hr ⊢; exact hI.recs i r hr hwant
+    · intro s m key h
+      by_cases hs' : s = s0
+      · subst hs'; rw [hq0, touched_append] at h
+        rcases h with h | h
+        · exact hI.tshard s m key h
+        · rw [touched_snap h]; exact hI.heldlt me k hheld
+      · rw [hq s hs'] at h; exact hI.tshard s m key h
+    · intro key ⟨l, hl, hk⟩
+      by_cases h : key.peer = me
+      · rw [h] at hl; simp at hl; exact hI.dropped key ⟨l, h ▸ hl, hk⟩
+      · simp [updT_ne _ _ h] at hl; exact hI.dropped key ⟨l, hl, hk⟩
+    · intro i s k' hh hf hs hns
+      by_cases h : i = me
+      · subst h; simp at hf; rw [hfresh] at hf; cases hf
+      · simp [updT_ne _ _ h] at hh hf hns
+        have hb := hI.blind i s k' hh hf hs hns
+        by_cases hs' : s = s0
+        · subst hs'
+          have hkk : k' ≠ k := fun e => h (hI.excl i me k (e ▸ hh) hheld)
+          refine ⟨by simp [hkk]; exact hb.1, ?_⟩
+          intro m key hkey htch
+          rw [hq0, touched_append] at htch
+          rcases htch with htch | htch
+          · exact hb.2 m key hkey htch
+          · exact hkk (hkey ▸ touched_snap htch)
+        · rw [hq s hs']; simp only [hs', if_false]; exact hb
+    · intro s hs m key hpre
+      have hdsh : ∀ key, droppedShard st key → droppedShard
+          { st with queues := send st.queues [s0] (snapEvents st k),
+                    done := fun s' => if s' = s0 then k :: st.done s' else st.done s',
+                    threads := updT st.threads me { (st.threads me) with pgm := rest, snapping := some (s0, k :: l0) } } key := by
+        intro key ⟨l, hl, hk⟩
+        refine ⟨l, ?_, hk⟩
+        by_cases h : key.peer = me
+        · rw [h] at hl ⊢; simp; exact hl
+        · simp [updT_ne _ _ h]; exact hl
+      by_cases hs' : s = s0
+      · subst hs'
+        rw [hq0] at hpre ⊢
+        simp only [if_true] at hpre
+        by_cases hk : key.shard = k
+        · rw [view_append, snap_fold hI hk]
+          change (match ribV m st key with | some v => some v | none => view m key (st.queues s)) = ribV m st key ∨ _
+          cases hr : ribV m st key with
+          | some v => left; rfl
+          | none =>
+            dsimp only
+            by_cases hold : touched m key (st.queues s) ∨ key.shard ∈ st.done s
+            · rcases hI.viewI s hs m key hold with hv | hd
+              · left; rw [hv, hr]
+              · right; exact hdsh key hd
+            · left
+              exact view_untouched m key _ (fun h => hold (Or.inl h))
+        · have hnt : ¬ touched m key (snapEvents st k) := fun h => hk (touched_snap h)
+          rw [view_append, foldl_untouched m key _ _ hnt (fun e he p hp => absurd hp (snap_no_down st k e he p))]
+          have hold : touched m key (st.queues s) ∨ key.shard ∈ st.done s := by
+            rcases hpre with h | h
+            · rw [touched_append] at h; exact h.elim Or.inl (fun h => absurd h hnt)
+            · simp at h; exact h.elim (fun h => absurd h hk) Or.inr
+          rcases hI.viewI s hs m key hold with hv | hd
+          · left; exact hv
+          · right; exact hdsh key hd
+      · rw [hq s hs'] at hpre ⊢
+        simp only [hs', if_false] at hpre
+        rcases hI.viewI s hs m key hpre with hv | hd
+        · left; exact hv
+        · right; exact hdsh key hd
+
+theorem markDead_spec : ∀ (l : List SubRec) {s l'}, markDead l = some (s, l') →
+    ∀ r' ∈ l', ∃ r ∈ l, r.sid = r'.sid ∧ r.want = r'.want := by
+  intro l
+  induction l with
+  | nil => intro s l' h; simp [markDead] at h
+  | cons r rest ih =>
+    intro s l' h r' hr'
+    simp only [markDead] at h
+    cases hm : markDead rest with
+    | some p =>
+      obtain ⟨s1, rest'⟩ := p
+      simp [hm] at h
+      obtain ⟨_, rfl⟩ := h
+      simp at hr'
+      rcases hr' with rfl | hr'
+      · exact ⟨r', by simp, rfl, rfl⟩
+      · obtain ⟨r0, hr0, h1, h2⟩ := ih hm r' hr'
+        exact ⟨r0, by simp [hr0], h1, h2⟩
+    | none =>
+      simp [hm] at h
+      obtain ⟨_, _, rfl⟩ := h
+      simp at hr'
+      rcases hr' with rfl | hr'
+      · exact ⟨r, by simp, rfl, rfl⟩
+      · exact ⟨r', by simp [hr'], rfl, rfl⟩
+
+theorem step_unsubscribe {st st' : St} {me rest} (hI : Inv st)
+    (hp : (st.threads me).pgm = .unsubscribe :: rest) (hs : step me st = some st') : Inv st' := by
+  have hme := me_lt hI hp
+  have hw := hI.wf me
+  unfold TWF at hw; rw [hp] at hw
+  simp only [wfp, Bool.and_eq_true, Option.isNone_iff_eq_none] at hw
+  obtain ⟨hsnap, hrest⟩ := hw
+  have hsnap' : (st.threads me).snapping = none := by
+    cases h : (st.threads me).snapping <;> simp [h] at hsnap ⊢
+  simp only [step, hp] at hs
+  cases hm : markDead (st.threads me).mysubs with
+  | none =>
+    simp only [hm] at hs
+    injection hs with hs; subst hs
+    exact inv_core (p := st.policy) hI hme rfl rfl rfl (by unfold TWF; simpa [hsnap'] using hrest)
+      (keepCore hI).1 (hI.idsT me) (keepCore hI).2
+  | some p =>
+    obtain ⟨s0, ms⟩ := p
+    simp only [hm] at hs
+    injection hs with hs; subst hs
+    have hsub : ∀ s, s ∈ st.subscribers.filter (· != s0) → s ∈ st.subscribers := by
+      intro s h; exact (List.mem_filter.mp h).1
+    constructor <;> dsimp only
+    · intro i hi
+      have : i ≠ me := by omega
+      simp only [updT_ne _ _ this]; exact hI.idle i hi
+    · intro i
+      by_cases h : i = me
+      · subst h; unfold TWF; simpa [hsnap'] using hrest
+      · simpa [updT_ne _ _ h] using hI.wf i
+    · intro i j k' hi hj
+      have hi' : (st.threads i).held = some k' := by
+        by_cases h : i = me
+        · subst h; simpa using hi
+        · simpa [updT_ne _ _ h] using hi
+      have hj' : (st.threads j).held = some k' := by
+        by_cases h : j = me
+        · subst h; simpa using hj
+        · simpa [updT_ne _ _ h] using hj
+      exact hI.excl i j k' hi' hj'
+    · intro i k' hi
+      by_cases h : i = me
+      · subst h; simp at hi; exact hI.heldlt i k' hi
+      · simp [updT_ne _ _ h] at hi; exact hI.heldlt i k' hi
+    · exact hI.sup
+    · intro s hs; exact hI.idsS s (hsub s hs)
+    · intro i s hs
+      by_cases h : i = me
+      · subst h; simp at hs; exact hI.idsT i s hs
+      · simp [updT_ne _ _ h] at hs; exact hI.idsT i s hs
+    · intro i s l hs
+      by_cases h : i = me
+      · subst h; simp at hs; exact hI.idsN i s l hs
+      · simp [updT_ne _ _ h] at hs; exact hI.idsN i s l hs
+    · exact hI.idsQ
+    · intro i s l hs
+      by_cases h : i = me
+      · subst h; simp at hs; exact hI.snapl i s l hs
+      · simp [updT_ne _ _ h] at hs; exact hI.snapl i s l hs
+    · exact hI.comp
+    · intro i r hr hwant
+      by_cases h : i = me
+      · subst h; simp at hr ⊢
+        obtain ⟨r0, hr0, h1, h2⟩ := markDead_spec _ hm r hr
+        rcases hI.recs i r0 hr0 (h2 ▸ hwant) with hc | ⟨l, hl⟩
+        · exact Or.inl (h1 ▸ hc)
+        · rw [hsnap'] at hl; cases hl
+      · simp [updT_ne _ _ h] at hr ⊢; exact hI.recs i r hr hwant
+    · exact hI.tshard
+    · intro key ⟨l, hl, hk⟩
+      by_cases h : key.peer = me
+      · rw [h] at hl; simp at hl; exact hI.dropped key ⟨l, h ▸ hl, hk⟩
+      · simp [updT_ne _ _ h] at hl; exact hI.dropped key ⟨l, hl, hk⟩
+    · intro i s k' hh hf hs hns
+      by_cases h : i = me
+      · subst h; simp at hh hf hns; exact hI.blind i s k' hh hf (hsub s hs) hns
+      · simp [updT_ne _ _ h] at hh hf hns; exact hI.blind i s k' hh hf (hsub s hs) hns
+    · intro s hs m key hpre
+      rcases hI.viewI s (hsub s hs) m key hpre with hv | ⟨l, hl, hk⟩
+      · left; exact hv
+      · right
+        refine ⟨l, ?_, hk⟩
+        by_cases h : key.peer = me
+        · rw [h] at hl ⊢; simp; exact hl
+        · simp [updT_ne _ _ h]; exact hl
+
+/-- Every atomic step of every thread preserves the invariant. -/
+theorem step_inv {st st' : St} {me : Nat} (hI : Inv st) (hs : step me st = some st') : Inv st' := by
+  cases hp : (st.threads me).pgm with
+  | nil => simp [step, hp] at hs
+  | cons i rest =>
+    cases i with
+    | yld y => exact step_yld hI hp hs
+    | loadPol => exact step_loadPol hI hp hs
+    | acquire k => exact step_acquire hI hp hs
+    | release k => exact step_release hI hp hs
+    | loadSubs => exact step_loadSubs hI hp hs
+    | commitIns key a => exact step_commitIns hI hp hs
+    | commitRem key => exact step_commitRem hI hp hs
+    | commitSr k => exact step_commitSr hI hp hs
+    | commitDrop k => exact step_commitDrop hI hp hs
+    | sendUp => exact step_sendUp hI hp hs
+    | sendDown => exact step_sendDown hI hp hs
+    | setPol p => exact step_setPol hI hp hs
+    | register w => exact step_register hI hp hs
+    | snap k => exact step_snap hI hp hs
+    | sentinel => exact step_sentinel hI hp hs
+    | unsubscribe => exact step_unsubscribe hI hp hs
+    | ret => exact step_ret hI hp hs
+
 end Rbgp.Monitor
